@@ -70,7 +70,11 @@ impl Prop for PDelete {
         b.push("-delete".into());
         b.push("-printf".into());
         b.push("%p\\0".into());
-        if alt {
+        let altquit = input.get("altquit").and_then(|a| a.as_bool()).unwrap_or(false);
+        if alt && altquit {
+            // ( -delete -printf .. -o -quit ): the first removal that fails ends the run - with its failure counted
+            b.extend(["-o".to_string(), "-quit".to_string(), ")".to_string()]);
+        } else if alt {
             b.extend(["-o".to_string(), "-fprint0".to_string(), side.to_string_lossy().into_owned(), ")".to_string()]);
         }
         let errf = dir_b.parent().unwrap().join("stderr.txt");
@@ -81,7 +85,7 @@ impl Prop for PDelete {
         let left: Vec<bool> = (1..=tree.len()).map(|i| dir_b.join(node_path(&tree, i)).symlink_metadata().is_ok()).collect();
         // nothing but the tree's own nodes may exist or have appeared
         let extra = count_entries(&dir_b) as i64 - left.iter().filter(|x| **x).count() as i64;
-        let notdel = if alt { Some(std::fs::read(&side).unwrap_or_default()) } else { None };
+        let notdel = if alt && !altquit { Some(std::fs::read(&side).unwrap_or_default()) } else { None };
         let mut o = json!({"matched": split_nul(&ra.out).iter().map(|p| bytes_to_json(&unlossy(p, &tree))).collect::<Vec<_>>(),
                "deleted": split_nul(&rb.out).iter().map(|p| bytes_to_json(&unlossy(p, &tree))).collect::<Vec<_>>(),
                "left": left, "exit": rb.exit, "diag": !rb.stderr.is_empty(), "extra": extra, "exit_twin": ra.exit});
@@ -128,6 +132,7 @@ impl Prop for PDelete {
             v["pre"]["neg"] = json!(true);
         }
         v["alt"] = json!(rng.chance(1, 2));
+        v["altquit"] = json!(v["alt"] == true && rng.chance(1, 3));
         v["prune"] = json!(rng.chance(1, 2));
         // names that are not valid UTF-8 are removed like any other (the test before -delete then looks at types only)
         if rng.chance(1, 4) && add_raw_names(&mut v, rng) && v["pre"]["p"] == "name" {
